@@ -16,7 +16,10 @@ func valueOperator(_ *dataTreeNavigator, context Context, expressionNode *Expres
 	var results = list.New()
 
 	for el := context.MatchingNodes.Front(); el != nil; el = el.Next() {
+		candidate := el.Value.(*CandidateNode)
 		clone := expressionNode.Operation.CandidateNode.Copy()
+		// a literal evaluated for a node of some document is a result of that document (and file)
+		clone.document, clone.filename, clone.fileIndex = candidate.GetDocument(), candidate.GetFilename(), candidate.GetFileIndex()
 		results.PushBack(clone)
 	}
 
